@@ -390,6 +390,34 @@ func genInput(r *vgen.Rand, c genCfg, n int) []kvt {
 	return out
 }
 
+// genMonotone: keys already in non-increasing (desc) or non-decreasing order, each key m times in a row,
+// every occurrence with its own value, so the first and the last value of a key differ (pre-sorted inputs
+// must still give the LAST value).
+func genMonotone(r *vgen.Rand, desc bool) []kvt {
+	k := r.Range(1, 9)
+	if r.Chance(1, 6) {
+		k = r.Range(10, 20)
+	}
+	var out []kvt
+	n := 0
+	for i := 0; i < k; i++ {
+		key := fmt.Sprintf("k%02d", i)
+		if desc {
+			key = fmt.Sprintf("k%02d", k-1-i)
+		}
+		m := vgen.Pick(r, []int{1, 1, 2, 2, 3, 4})
+		for j := 0; j < m; j++ {
+			v := val{t: 2, n: uint64(n)}
+			if r.Chance(1, 4) {
+				v = val{t: 4, s: fmt.Sprintf("v%d", n)}
+			}
+			out = append(out, kvt{k: key, v: v})
+			n++
+		}
+	}
+	return out
+}
+
 // finalMapping: last binding per key, in order of the last occurrences.
 func finalMapping(l []kvt) []kvt {
 	seen := map[string]bool{}
@@ -766,6 +794,12 @@ func main() {
 	addNew(nil, fspec{}, "corpus")
 	addNew(nil, fspec{kind: 1}, "corpus")
 	addNew([]kvt{{"", val{}}, {"", val{t: 4}}, {"", val{}}}, fspec{}, "corpus")
+	// keys already in non-increasing order with a duplicated key whose first and last values differ
+	mono := []kvt{{"c", val{t: 2, n: 1}}, {"b", val{t: 2, n: 1}}, {"a", val{t: 2, n: 1}}, {"a", val{t: 2, n: 2}}}
+	addNew(mono, fspec{}, "corpus")
+	addNew([]kvt{{"b", val{t: 2, n: 1}}, {"b", val{t: 2, n: 2}}, {"a", val{t: 2, n: 3}}, {"a", val{t: 2, n: 4}}}, fspec{}, "corpus")
+	addNew([]kvt{{"a", val{t: 2, n: 1}}, {"a", val{t: 2, n: 2}}}, fspec{}, "corpus")
+	addPair(mono, []kvt{{"a", val{t: 2, n: 2}}, {"b", val{t: 2, n: 1}}, {"c", val{t: 2, n: 1}}}, "corpus:non-increasing")
 	for _, n := range []int{9, 10, 11, 12} { // fixed-array / reflect switch, with one duplicate pushing over the edge
 		var l []kvt
 		for i := 0; i < n; i++ {
@@ -806,6 +840,16 @@ func main() {
 		addNew(input, fspec{kind: 3, mask: 0b10110}, "new-long")
 	}
 
+	nMono := o.Count(90, 1500)
+	for i := 0; i < nMono; i++ {
+		in := genMonotone(r, i%3 != 0)
+		if i%2 == 0 {
+			addNew(in, genFilter(r, anyCfg, in, true), "new-monotone")
+		} else {
+			addPair(in, sameMappingVariant(r, anyCfg, in), "monotone:same-mapping")
+		}
+	}
+
 	// exhaustive permutations of small inputs (n <= 5), regular and irregular values
 	nBases := o.Count(2, 12)
 	for b := 0; b < nBases; b++ {
@@ -842,6 +886,114 @@ func main() {
 			base, other = other, base
 		}
 		addPair(base, other, kind)
+	}
+
+	// --- CIter / CMIter: iterator call sequences, also after a partial walk ---
+	genOps := func(merge bool) []int { // 0 Next, 1 Attribute, 2 IndexedAttribute, 3 Len, 4 ToSlice
+		n := r.Intn(14)
+		ops := make([]int, n)
+		for j := range ops {
+			x := r.Intn(20)
+			switch {
+			case x < 9:
+				ops[j] = 0
+			case x < 13 || merge:
+				ops[j] = 1
+			case x < 15:
+				ops[j] = 2
+			case x < 17:
+				ops[j] = 3
+			default:
+				ops[j] = 4
+			}
+			if merge && x >= 13 && x%2 == 1 {
+				ops[j] = 0
+			}
+		}
+		return ops
+	}
+	opNames := []string{"INext", "IAttr", "IIndexed", "ILen", "IToSlice"}
+	oneKV := func(a attribute.KeyValue) string { return kvCoq(fromAttrs([]attribute.KeyValue{a})[0]) }
+	nIter := o.Count(260, 4000)
+	for i := 0; i < nIter; i++ {
+		input := genInput(r, anyCfg, vgen.Pick(r, sizes))
+		f := genFilter(r, anyCfg, input, false)
+		viaFilter := i%3 == 0
+		ops := genOps(false)
+		desc := map[string]any{"op": "Iterator", "input": kvsDesc(input), "via_filter": viaFilter, "filter": f.String()}
+		guard(desc, func() {
+			set := attribute.NewSet(toAttrs(input, r)...)
+			fc := vgen.None
+			if viaFilter {
+				set, _ = set.Filter(f.goFilter())
+				fc = vgen.Some(f.coq())
+			}
+			contents := fromAttrs(set.ToSlice())
+			it := set.Iter()
+			var opc, obs, names []string
+			for _, op := range ops {
+				opc = append(opc, opNames[op])
+				names = append(names, opNames[op][1:])
+				switch op {
+				case 0:
+					obs = append(obs, vgen.App("ONext", vgen.Bool(it.Next())))
+				case 1:
+					a := it.Attribute()
+					if r.Bool() {
+						a = it.Label()
+					}
+					obs = append(obs, vgen.App("OAttr", oneKV(a)))
+				case 2:
+					idx, a := it.IndexedAttribute()
+					if r.Bool() {
+						idx, a = it.IndexedLabel()
+					}
+					obs = append(obs, vgen.App("OIndexed", vgen.Z(int64(idx)), oneKV(a)))
+				case 3:
+					obs = append(obs, vgen.App("OLen", vgen.N(uint64(it.Len()))))
+				case 4:
+					obs = append(obs, vgen.App("OSlice", kvsCoq(fromAttrs(it.ToSlice()))))
+				}
+			}
+			desc["calls"] = strings.Join(names, " ")
+			w.Tally(fmt.Sprintf("iter:setlen=%s", lenBucket(len(contents))))
+			w.Add(vgen.App("CIter", kvsCoq(input), fc, kvsCoq(contents), vgen.List(opc), vgen.List(obs)), desc, "iter", len(ops) > 1 && len(contents) > 0)
+		})
+	}
+	nMIter := o.Count(120, 2000)
+	for i := 0; i < nMIter; i++ {
+		i1 := genInput(r, anyCfg, vgen.Pick(r, sizes[:16]))
+		i2 := genInput(r, anyCfg, vgen.Pick(r, sizes[:16]))
+		ops := genOps(true)
+		desc := map[string]any{"op": "MergeIterator calls", "input1": kvsDesc(i1), "input2": kvsDesc(i2)}
+		guard(desc, func() {
+			s1 := attribute.NewSet(toAttrs(i1, r)...)
+			s2 := attribute.NewSet(toAttrs(i2, r)...)
+			full := attribute.NewMergeIterator(&s1, &s2)
+			var merged []attribute.KeyValue
+			for full.Next() && len(merged) <= s1.Len()+s2.Len() {
+				merged = append(merged, full.Attribute())
+			}
+			mi := attribute.NewMergeIterator(&s1, &s2)
+			var opc, obs, names []string
+			for _, op := range ops {
+				opc = append(opc, opNames[op])
+				names = append(names, opNames[op][1:])
+				if op == 0 {
+					obs = append(obs, vgen.App("ONext", vgen.Bool(mi.Next())))
+				} else {
+					a := mi.Attribute()
+					if r.Bool() {
+						a = mi.Label()
+					}
+					obs = append(obs, vgen.App("OAttr", oneKV(a)))
+				}
+			}
+			desc["calls"] = strings.Join(names, " ")
+			w.Tally(fmt.Sprintf("miter:merged=%s", lenBucket(len(merged))))
+			w.Add(vgen.App("CMIter", kvsCoq(i1), kvsCoq(i2), kvsCoq(fromAttrs(s1.ToSlice())), kvsCoq(fromAttrs(s2.ToSlice())), kvsCoq(fromAttrs(merged)),
+				vgen.List(opc), vgen.List(obs)), desc, "miter", len(ops) > 1 && len(merged) > 0)
+		})
 	}
 
 	// --- CLookup ---
